@@ -146,6 +146,12 @@ func runCase(t *testing.T) func(Case) pbt.Result {
 				if o.Kind != "sync" || !o.Done() || o.Err != nil || !o.Cid.Defined() {
 					continue
 				}
+				if e.HandlerRemoved() {
+					// RemoveHandler during a running sync lets a second sync of the same publisher start next
+					// to it (new handler, new locks); the two share the publisher's hook slot and the one that
+					// finishes first takes the other's hook away. Not claimed (as for the one-sync invariant).
+					break
+				}
 				p := e.Pubs[o.P]
 				at := -1
 				for i, ci := range p.Chain {
